@@ -1,4 +1,29 @@
 """Reference accumulator for filter/breakpoint commands (C12; reused by C10, C06/C11 walkers)."""
+import re
+
+
+class ConnOnly:
+    """independent evaluator for an alternative that restricts the connection only (`B:`, `B: *`): the message is on an object of
+    the connection named so (messages on objects never seen created are filed under `unknown` by the tool)"""
+    def __init__(self, name):
+        self.name = name
+
+    def matches(self, msg):
+        c = msg.obj.connection
+        return (c.name() if c is not None else 'unknown') == self.name
+
+    def always(self):
+        return None
+
+
+def atom_matcher(matcher_mod, text):
+    """what decides whether one alternative selects a message: for the connection-only form an evaluator of our own, otherwise
+    the tool's parse of that single atom (its meaning is C05's business)"""
+    mm = re.fullmatch(r'\s*([A-Za-z]+)\s*:\s*(\*\s*)?', text)
+    if mm:
+        return ConnOnly(mm.group(1))
+    return matcher_mod.parse(text).simplify()
+
 
 
 class Model:
@@ -9,7 +34,12 @@ class Model:
         self.P, self.N, self.star, self.forgotten = [], [], False, []
 
     def is_star_atom(self, a):
-        return a.strip() == '*' or self.m.parse(a).simplify().always() is True
+        # an alternative that restricts nothing: says so itself *and* names nothing (a simplification that wrongly collapses
+        # `B:` or `wl_x` to `*` must not teach the model that these select everything)
+        import re
+        if a.strip() == '*':
+            return True
+        return not re.search(r'[A-Za-z0-9]', a) and self.m.parse(a).simplify().always() is True
 
     def apply(self, alts, excl):
         if self.const is not None:
